@@ -325,7 +325,15 @@ func c16Run(ctx *core.Ctx, tree int, dotu bool) core.Result {
 				all = append(all, "..")
 			}
 			cases = append(cases, dd{append(all, ".."), ""})
+			// "." names the directory it is walked in: at the end, in the middle, several in a row
+			cases = append(cases, dd{append(append([]string{}, comps...), "."), d})
+			cases = append(cases, dd{append(append([]string{}, comps...), ".", "."), d})
+			if len(comps) > 1 {
+				mid := append(append(append([]string{}, comps[:1]...), "."), comps[1:]...)
+				cases = append(cases, dd{mid, d})
+			}
 		}
+		cases = append(cases, dd{[]string{"."}, ""}, dd{[]string{".", ".."}, ""})
 		for _, cse := range cases {
 			rel := cse.rel
 			if rel == "." {
